@@ -1,0 +1,44 @@
+//go:build verif
+
+package massdb
+
+// Contracts for govc. Comment-only; compiled only with -tags verif.
+// The plot DB behind a workspace never touches the keeper's state: contracts of the MassDB interface, assumed for
+// callers (the massdb.v1 implementation is verified separately: C07 / C10 / C11).
+
+//@ func (MassDB).Plot
+//@   attr trusted
+//@   modifies nothing
+//@ func (MassDB).StopPlot
+//@   attr trusted
+//@   modifies nothing
+//@ func (MassDB).Delete
+//@   attr trusted, effect:fs.remove
+//@   modifies nothing
+//@ func (MassDB).Close
+//@   attr trusted
+//@   modifies nothing
+//@ func (MassDB).Progress
+//@   attr trusted
+//@   modifies nothing
+//@ func (MassDB).Ready
+//@   attr trusted
+//@   modifies nothing
+//@ func (MassDB).PubKey
+//@   attr trusted
+//@   modifies nothing
+//@ func (MassDB).PubKeyHash
+//@   attr trusted
+//@   modifies nothing
+//@ func (MassDB).BitLength
+//@   attr trusted
+//@   modifies nothing
+//@ func (MassDB).GetProof
+//@   attr trusted
+//@   modifies nothing
+//@ func (MassDB).Get
+//@   attr trusted
+//@   modifies nothing
+//@ func (MassDB).Type
+//@   attr trusted
+//@   modifies nothing
